@@ -748,6 +748,10 @@ fn corpus() -> Vec<(bool, AProg, Spell)> {
         }
         v.push((true, p(vec![s(St::Blkw(pad)), s(St::Br(7, Loc::Lit(0xFFFE))), s(St::Br(7, Loc::Lit(2))), s(St::Named(5)), s(St::Named(5)), s(St::Ld(0, Loc::Lit(0xFFFD)))], &[]), Spell::Dec));
     }
+    // string literals containing a raw NUL character, with and without escapes next to it
+    for t in ["a\u{0}b", "a\u{0}b\\n", "\u{0}\\\\", "\\\\\u{0}\\t\u{0}", "\u{0}", "x\\\"\u{0}\\\"y", "\\q\u{0}"] {
+        v.push((true, p(vec![It::Stmt(Some(0), St::Strz(t.to_string())), s(St::Fill(0xBEEF))], &["msg"]), Spell::Hex));
+    }
     // one string literal whose source text is around and beyond 65,535 bytes (a 16-bit span
     // length), made of multi-byte characters so that the program stays far below the memory limit
     for (ch, bytes) in [("é", 65_530usize), ("é", 65_534), ("é", 65_536), ("é", 65_538), ("中", 65_535), ("中", 65_538), ("中", 70_002), ("😀", 65_536)] {
